@@ -441,10 +441,11 @@ class Exec(object):
             return v.arg(0)
         inf = self.kind_of(st, v) if not st.entails(z3.Not(Val.is_ref(v))) else None
         if isinstance(inf, str):
+            # the hint describes the value when it IS a reference; it may still be None on this path
             if 'dict' in LAT.ancestors(inf):
-                return st.g['ddom'][Val.addr(v)] != z3.K(Val, False)
+                return z3.If(Val.is_ref(v), st.g['ddom'][Val.addr(v)] != z3.K(Val, False), truthy(v))
             if 'list' in LAT.ancestors(inf) or 'tuple' in LAT.ancestors(inf):
-                return z3.Length(st.seq(v)) > 0
+                return z3.If(Val.is_ref(v), z3.Length(st.seq(v)) > 0, truthy(v))
         return truthy(v)
 
     def e_UnaryOp(self, e, st):
@@ -574,6 +575,9 @@ class Exec(object):
         return self.each([e.value, e.slice], st, lambda s, vs: self.getitem(s, vs[0], vs[1], e))
 
     def slice(self, s, o, lo, hi):
+        r = self.hook('slice', s, o, lo, hi)
+        if r is not None:
+            return r
         outs = []
         isstr = s.entails(Val.is_s(o))
         sq = Val.sv(o) if isstr else s.seq(o)
@@ -590,8 +594,6 @@ class Exec(object):
             outs.append((s, ('val', Val.s(res))))
         else:
             if not self.is_kind(s, o, 'list', 'tuple'):
-                r = self.hook('slice', s, o, lo, hi)
-                if r is not None: return r
                 raise Unsupported('slice of a value of unknown kind')
             outs.append((s, ('val', s.new_seq(res, self.kind_of(s, o)))))
         return outs
